@@ -46,10 +46,15 @@ func budget(tier string) time.Duration {
 			return d
 		}
 	}
+	// (far above what the scenarios need on an idle machine - about 2 min quick,
+	// 25 min thorough for the largest check: a budget that is reached makes the
+	// coverage depend on the machine's load, later scenarios of the check are then
+	// skipped and the run says exhaustive:false; it is only there to stop a
+	// run-away exploration)
 	if tier == "thorough" {
-		return 25 * time.Minute
+		return 100 * time.Minute
 	}
-	return 150 * time.Second
+	return 15 * time.Minute
 }
 
 // schedBudget: wall-clock cap of one scheduler layer (E2).  It is far above what
